@@ -272,6 +272,7 @@ def run_case(case):
     try:
         try:
             cls = dspec.build_decl(d)
+            d = dspec.resolve_naming(d)      # class-level alias generators written out per field (model only; the class is built above)
             if d.get("parent"):
                 # the contract of a subclass: the parent's fields it does not redeclare, then its own declarations
                 d = dict(d, fields=dspec.all_fields(d))
@@ -382,7 +383,7 @@ def judge(case):
 
 
 def case_strategy():
-    decls = dspec.decl_specs(options=dspec.CLASS_OPTIONS, inherit=True)
+    decls = dspec.decl_specs(options=dspec.CLASS_AND_NAMING_OPTIONS, inherit=True)
     return decls.flatmap(lambda d: st.fixed_dictionaries({"decl": st.just(d), "input": dspec.inputs_for(d)}))
 
 
@@ -402,6 +403,8 @@ def campaign(ctx):
         if r["status"] == "unspecified":
             ctx.label(f"unspecified_{r['why']}")
         if r["status"] in ("accepted", "rejected"):
+            if any(k in (case["decl"].get("options") or {}) for k in dspec.NAMING_KEYS):
+                ctx.label("class_level_alias_generators")
             if case["decl"].get("parent"):
                 ctx.label("subclass_of_a_generated_parent")
                 if any(p[0] in dspec.stale_names(case["decl"]) for p in vs["v"]):
